@@ -38,41 +38,6 @@ RULE += (' ' +
          'replies queued; a final handler that is a falsy callable; a final '
          'handler that uninstalls itself while running; a handler that '
          'queues a farewell and calls the plain disconnect() (the farewell '
-         'must reach the server). ')
-RULE += (' ' +
-         'Added in later rounds: a bystander Connection; peer reset with '
-         'replies queued; a final handler that is a falsy callable; a final '
-         'handler that uninstalls itself while running; a handler that '
-         'queues a farewell and calls the plain disconnect() (the farewell '
-         'must reach the server). Round 11: handlers that re-raise with a '
-         'bare `raise` (while the original exception is the current one). ')
-RULE += (' ' +
-         'Added in later rounds: a bystander Connection; peer reset with '
-         'replies queued; a final handler that is a falsy callable; a final '
-         'handler that uninstalls itself while running; a handler that '
-         'queues a farewell and calls the plain disconnect() (the farewell '
-         'must reach the server). Round 11: handlers that re-raise with a '
-         'bare `raise` (while the original exception is the current one). '
-         'Round 12: a listener fault in the same loop pass as a deferred '
-         'write error (the peer emits the triggering packet inside the '
-         "client's failing send); descriptors of the faulted link closed. ")
-RULE += (' ' +
-         'Added in later rounds: a bystander Connection; peer reset with '
-         'replies queued; a final handler that is a falsy callable; a final '
-         'handler that uninstalls itself while running; a handler that '
-         'queues a farewell and calls the plain disconnect() (the farewell '
-         'must reach the server). Round 11: handlers that re-raise with a '
-         'bare `raise` (while the original exception is the current one). '
-         'Round 12: a listener fault in the same loop pass as a deferred '
-         'write error (the peer emits the triggering packet inside the '
-         "client's failing send); descriptors of the faulted link closed. "
-         'Round 13: type filters given as one tuple argument (also the empty '
-         'tuple, which matches nothing). ')
-RULE += (' ' +
-         'Added in later rounds: a bystander Connection; peer reset with '
-         'replies queued; a final handler that is a falsy callable; a final '
-         'handler that uninstalls itself while running; a handler that '
-         'queues a farewell and calls the plain disconnect() (the farewell '
          'must reach the server). Round 11: handlers that re-raise with a '
          'bare `raise` (while the original exception is the current one). '
          'Round 12: a listener fault in the same loop pass as a deferred '
@@ -80,20 +45,10 @@ RULE += (' ' +
          "client's failing send); descriptors of the faulted link closed. "
          'Round 13: type filters given as one tuple argument (also the empty '
          'tuple, which matches nothing). Round 14: ten more built-in fault '
-         'classes from every user-code origin (task classes). ')
-RULE += (' ' +
-         'Added in later rounds: a bystander Connection; peer reset with '
-         'replies queued; a final handler that is a falsy callable; a final '
-         'handler that uninstalls itself while running; a handler that '
-         'queues a farewell and calls the plain disconnect() (the farewell '
-         'must reach the server). Round 11: handlers that re-raise with a '
-         'bare `raise` (while the original exception is the current one). '
-         'Round 12: a listener fault in the same loop pass as a deferred '
-         'write error (the peer emits the triggering packet inside the '
-         "client's failing send); descriptors of the faulted link closed. "
-         'Round 13: type filters given as one tuple argument (also the empty '
-         'tuple, which matches nothing). Round 14: ten more built-in fault '
-         'classes from every user-code origin (task classes). ')
+         'classes from every user-code origin (task classes). Round 16: '
+         'handler action supervised - the handler waits until a supervisor '
+         "thread's disconnect() returned; exit callbacks counted per session "
+         '(X5-exit-callback-of-clean-sessions). ')
 LEVEL_TEXT = ('Enumeration of fault origins x handler-chain configurations '
               '(complete for chains up to length 2 over a 6-class hierarchy) '
               'against a reference model of the documented try/except '
